@@ -659,7 +659,7 @@ def c07_groups(tier, tag='C07'):
         gs.append(Group('%s.lweCreateKeySwitchKey.bounded.n=%d.t=%d.basebit=%d' % (tag, n_, t_, bb_), 'c03_encrypt.c', 'h_b_createKeySwitchKey',
                         extract=[(KS, 'lweCreateKeySwitchKey', S_)], defines={'H_KSCREATE': None, 'VERIF_KS_N': n_, 'VERIF_KS_T': t_, 'VERIF_KS_BB': bb_, 'KS_ALPHA_SYMBOLIC': None},
                         unwind=n_ * t_ * (1 << bb_) + 3, bounded=True, timeout=900, instance={'n': n_, 't': t_, 'basebit': bb_, 'alpha': 'symbolic in [0,1]'}))
-    for (t_, bb_) in ([(8, 2), (2, 1), (3, 3), (1, 4)] if tier == 'quick' else [(8, 2), (2, 1), (3, 3), (1, 4), (15, 2), (4, 4), (5, 3), (16, 1), (1, 1), (2, 5)]):
+    for (t_, bb_) in ([(8, 2), (2, 1), (3, 3), (1, 2)] if tier == 'quick' else [(8, 2), (2, 1), (3, 3), (1, 4), (15, 2), (4, 4), (5, 3), (16, 1), (1, 1), (2, 5)]):
         gs.append(Group('%s.lweCreateKeySwitchKey.unbounded.t=%d.basebit=%d' % (tag, t_, bb_), 'c03_encrypt.c', 'h_createKeySwitchKey_unbounded',
                         extract=[(KS, 'lweCreateKeySwitchKey', S_)], loops=True, defines={'H_KSCREATE_U': None, 'VERIF_KS_T': t_, 'VERIF_KS_BB': bb_},
                         gen={'ksc.inc': ksc_inc(t_, bb_)}, timeout=1500, instance={'t': t_, 'basebit': bb_, 'n': 'symbolic', 'index': 'symbolic', 'alpha': 'symbolic in [0,1]'}))
